@@ -123,6 +123,15 @@ CLAIMED = {
        'positions x verdicts) and client STARTTLS runs over a stand-in TLS layer, plus real TLS runs on a socketpair.',
   ref='6/C08', technique='Lean 4 proof (case analysis of STARTTLS/AUTH steps) + differential correspondence vs real smtp.Server/Client (stand-in and real TLS)',
   note='Partial: TLS channel and pysasl are outside the model.'),
+ 'C10': dict(
+  text='Lean theorems over Model/Client.lean (reply queue of Client/LmtpClient) on top of C17\'s reply round-trip theorem: for every reply '
+       'script, every sequence of method calls (SMTP/LMTP, PIPELINING or not), every surplus of bytes and every segmentation of the reply '
+       'stream, each filled Reply object holds the code and CRLF-normalised text of the script\'s reply at its own position (invariant: queue = '
+       'consecutive slot numbers, connection aligned with the unread part of the script); LMTP send_data creates one consecutive slot per '
+       'recipient whose RCPT reply is 2xx. Tied to the code by all method sequences up to length 4 (quick) / 5 (thorough) x both protocols x '
+       'pipelining on/off with scripts whose texts name their position and two surplus replies (over-reading is observable), seeded longer '
+       'sequences and segmentations, against the real Client/LmtpClient.',
+  ref='6/C10', technique='Lean 4 proof (FIFO/alignment invariant over method sequences, uses the C17 theorem) + differential correspondence vs real smtp.Client/LmtpClient'),
 }
 def main():
     props = [json.loads(l) for l in open(os.path.join(V, 'properties.jsonl'))]
